@@ -77,6 +77,12 @@ def decorated(x):
     v = x + 5
     return v
 
+@deco
+@deco
+def decorated2(x):
+    v = x + 10
+    return v
+
 def scale(x):
     # module-level function with the same name as the permanently tooled method Box.scale
     v = x + 8
@@ -97,6 +103,7 @@ PLACEMENTS = {
     "inner-function": ("inner_fn", "inner_fn", lambda m, x: m.inner_fn(x), "v", lambda x: x + 4),
     "decorated": ("decorated", "decorated", lambda m, x: m.decorated(x), "v", lambda x: x + 5),
     "module-meth": ("meth", "meth", lambda m, x: m.meth(x), "v", lambda x: x + 6),
+    "decorated-twice": ("decorated2", "decorated2", lambda m, x: m.decorated2(x), "v", lambda x: x + 10),
     "module-scale": ("scale", "scale", lambda m, x: m.scale(x), "v", lambda x: x + 8),
     "tooled-method": ("Box.scale", "Box.scale", lambda m, x: m.Box().scale(x), "v", lambda x: x + 9),
     "outer-function": ("outer", "outer", lambda m, x: m.outer() and None, "k", lambda x: 7),
@@ -112,6 +119,7 @@ PAIRS = [
     ("nested-class-method", "method"),
     ("decorated", "top"),
     ("module-scale", "tooled-method"),
+    ("decorated-twice", "decorated"),
 ]
 MAIN_PAIRS = {"quick": [("top", "caller-path"), ("nested-class-method", "method")], "thorough": PAIRS}
 SLOTS = ["N1", "R1", "Q1", "Q2"]  # primary by name / by reference, secondary by name / by reference
@@ -147,7 +155,9 @@ class Target:
         objname, self.namesel, self.caller, self.var, self.value = PLACEMENTS[placement]
         self.placement = placement
         self.obj = _get(mod, objname)
-        self.fn = getattr(self.obj, "__wrapped__", self.obj)
+        self.fn = self.obj
+        while hasattr(self.fn, "__wrapped__") and not hasattr(self.fn, "__ptera_info__"):
+            self.fn = self.fn.__wrapped__  # the function under any number of functools.wraps decorators
         self.orig_code = self.fn.__code__
         self.ref = None
 
